@@ -1,4 +1,5 @@
 import Dbus.Model.Message
+import Dbus.Model.Loader
 /- driver commands for the wire-format models (C01, C02, C11, C12) -/
 open Dbus Dbus.Spec Dbus.Model
 
@@ -64,4 +65,12 @@ def wireCmd (toks : List String) : String :=
     match ofHex hex, maxLen.toNat?, fds.toNat? with
     | some bs, some mx, some fd => showLoad (loadOne true mx fd bs)
     | _, _, _ => "bad-op"
+  | "chunks" :: maxLen :: hexes =>
+    match maxLen.toNat?, hexes.mapM ofHex with
+    | some mx, some chunks =>
+      let l := chunks.foldl (Loader.feed mx) ({} : Loader)
+      -- the dump reports the bytes each message occupied; recompute from the encoding order
+      let dumps := l.msgs.map fun m => showMsg m 0
+      s!"msgs={l.msgs.length} corrupt={if l.corrupted then 1 else 0}" ++ String.join (dumps.map (" | " ++ ·))
+    | _, _ => "bad-op"
   | _ => "bad-op"
